@@ -152,6 +152,8 @@ type World struct {
 	faultPlan map[string]string
 
 	pendingInstance map[string]string
+	pendingSince    map[string]int  // reconcile number in which the interface was created
+	everRecorded    map[string]bool // interface ids that appeared in a record that reached the API server
 	pending         []chan struct{}
 
 	// truth mirrors maintained from API writes
@@ -209,7 +211,7 @@ func (ClusterWorld) Run(t *testing.T, scAny any, chooser simrt.Chooser, keepLog 
 	defer os.RemoveAll(dir)
 	return kit.Execute(t, chooser, keepLog, 600_000, func(run *kit.Run) {
 		w := &World{run: run, sc: sc, cfg: &sc.Cfg, dir: dir, faultIdx: map[string]int{}, faultPlan: map[string]string{},
-			pendingInstance: map[string]string{}, delProcessed: map[string]bool{}, trigger: make(chan struct{}, 1)}
+			pendingInstance: map[string]string{}, pendingSince: map[string]int{}, everRecorded: map[string]bool{}, delProcessed: map[string]bool{}, trigger: make(chan struct{}, 1)}
 		w.main()
 	})
 }
